@@ -96,6 +96,15 @@ impl Text {
     }
 }
 
+#[cfg(aranya_core_verif)]
+impl Text {
+    /// The reference count of shared heap storage, if this text uses it
+    /// (verification builds only).
+    pub fn verif_strong(&self) -> Option<usize> {
+        self.0.verif_strong()
+    }
+}
+
 impl fmt::Display for Text {
     fn fmt(&self, f: &mut fmt::Formatter<'_>) -> fmt::Result {
         self.0.as_str().fmt(f)
